@@ -864,7 +864,7 @@ def r9(ctx):
 RULES = [
     RuleDef('R7', 'shape line -> (parameter string, metadata string) on probe lines', r7, 1),
     RuleDef('R8', 'raw parser on probe documents: frame state/requirement, keyword partition, include, metadata, composite', r8, 40),
-    RuleDef('R9', 'grammar enumeration: all documents of <= 3 lines over a 16-line DS9 grammar against a state-machine oracle', r9, 1, tier='thorough'),
+    RuleDef('R9', 'grammar enumeration: all documents of <= 3 lines over a 16-line DS9 grammar against a state-machine oracle', r9, 1, tier='deep'),
     RuleDef('R3', 'coordinate / size / angle lexing constants', r3, 5),
     RuleDef('R3b', 'angle/size lexer probes (one per branch and per number ending)', r3b, 1),
     RuleDef('R4', 'parameter templates per shape (symbolic parse), annulus expansion, frame names', r4, 27),
